@@ -24,6 +24,8 @@ type TxSpec struct {
 	GasExpr  string `json:"gasExpr,omitempty"`  // "min-1" "min" "min+1" "big"
 	Price    string `json:"price,omitempty"`    // "" = active price; "p-1" "p+1" "0" "2^255" or decimal
 	NonceOff int    `json:"nonceOff,omitempty"` // added to the tracked nonce
+	FixNonce bool   `json:"fixNonce,omitempty"` // use NonceVal as the absolute nonce and a fixed time stamp (a CONCRETE signed tx: identical bytes whenever delivered)
+	NonceVal uint64 `json:"nonceVal,omitempty"`
 	SignBy   string `json:"signBy,omitempty"`   // sign with another wallet's key
 	BadSig   string `json:"badSig,omitempty"`   // "flip" "trunc" "empty" "v"
 	ChainID  string `json:"chainId,omitempty"`  // sign for another chain id
@@ -212,8 +214,14 @@ func (c *Chain) Build(s TxSpec, env Env) *ctrlertypes.Trx {
 		bal = big.NewInt(0)
 	}
 	amt := ParseAmount(s.Amount, bal, fee)
+	tm := (c.Gen.GenTime + env.Height) * 1_000_000_000
+	nonce := uint64(int64(env.Nonce) + int64(s.NonceOff))
+	if s.FixNonce {
+		tm = c.Gen.GenTime * 1_000_000_000
+		nonce = s.NonceVal
+	}
 	tx := &ctrlertypes.Trx{
-		Version: 1, Time: (c.Gen.GenTime + env.Height) * 1_000_000_000, Nonce: uint64(int64(env.Nonce) + int64(s.NonceOff)),
+		Version: 1, Time: tm, Nonce: nonce,
 		From: from.Addr, To: to, Amount: U256(amt), Gas: gas, GasPrice: U256(price), Type: typ, Payload: payload,
 	}
 	signer := from
